@@ -47,6 +47,13 @@ def build(prop, models=None):
         refused = [f for f in translate.FAILED if prop in f[1]]
         if refused:
             return False, "translator refused: " + "; ".join("%s: %s" % (f[0], f[2]) for f in refused), "harness/translate.py"
+        if prop in ("C05", "C09", "C11", "C12", "C18", "C19"):
+            # the data-flow graphs of canonical models, regenerated from the live groups
+            try:
+                from . import wiring
+                wiring.run()
+            except Exception as e:
+                return False, "wiring generator failed: %s: %s" % (type(e).__name__, str(e)[-600:]), "harness/wiring.py"
         if prop == "C03":
             # the storage-discipline programs of every component class, regenerated from the source
             from . import translate_writes, writes_diag
